@@ -3,6 +3,7 @@ import json
 
 from . import wire
 from .engine import AUTO
+from .model import jeq
 from .runner import scenario, sim_case
 
 # ----------------------------------------------------------------------
@@ -309,3 +310,103 @@ def allocfail_passwd(case, res):
         S.shutdown()
         return ["passwd", who, t, "alloc", nth, said, state, on_disk]
     creds_case(case, res, body)
+
+
+@scenario("allocfail-ns")
+def allocfail_ns(case, res):
+    """one add / change / remove by the owner with allocation number n failing: what a fresh connection reads back afterwards must
+    agree with the answer (refused or answered with an error: exactly as before; acknowledged: done), and the element keeps its kind"""
+    prm = case["params"]
+    nth = prm.get("nth")
+    count = prm.get("count", 1)
+    op = prm["op"]
+
+    def body(S, rng):
+        S.check_m = True
+        t = prm.get("transport", "raw")
+        o = _mk(S, "o", t)
+        obs = _mk(S, "obs", "raw")
+        old = {"k": [1, 2, 3], "s": "old"}
+        new = {"k": list(range(12)), "s": "n" * 60, "o": {"a": [None, True, 1.5]}}     # the whole request stays below the message limit
+        S.request(obs, "fetch", {"id": "all"})
+        S.request(o, "add", {"path": "s/a", "value": old})
+        S.request(o, "add", {"path": "s/m"})
+        S.settle()
+        o.keep_log = True
+        if nth is not None:
+            S.alloc_faults = True
+            S.desync = True
+            S.strict_close = False
+            S.sim.failalloc(nth, count)
+        start = S.sim.stat()["allocs"]
+        if op == "change":
+            p = S.request(o, "change", {"path": "s/a", "value": new})
+        elif op == "add":
+            p = S.request(o, "add", {"path": "s/new", "value": new})
+        else:
+            p = S.request(o, "remove", {"path": "s/a"})
+        p.expect_override = "any"
+        S.settle()
+        st = S.sim.stat()
+        S.sim.failalloc(-1, 0)
+        if nth is None:
+            res.alloc_count = st["allocs"] - start
+        S.stats["faults_fired"] += 1 if st["alloc_failed"] else 0
+        ans = [m for m in o.msglog if isinstance(m, dict) and m.get("id") == p.idv and ("result" in m or "error" in m)]
+        said = "nothing" if not ans else "done" if "result" in ans[0] else "refused"
+        # read back through a fresh connection
+        r = S.connect("reader", "raw")
+        r.keep_log = True
+        q = S.request(r, "get", {})
+        q.expect_override = "any"
+        S.settle()
+        got = [m for m in r.msglog if isinstance(m, dict) and m.get("id") == q.idv and "result" in m]
+        if not got:
+            S.v("after-fault:state/read-back-failed", "get on a fresh connection was not answered with a result")
+            listed = {}
+        else:
+            listed = {e.get("path"): e.get("value", "<method>") for e in got[0]["result"] if isinstance(e, dict)}
+        S.sig("ns-under-allocation-failure", op, said, t)
+        owner_gone = o.closed
+
+        def expect(path, before, after):
+            """before / after: value or None (absent); '<method>' for a method"""
+            have = listed.get(path)
+            if owner_gone:
+                allowed = [None]                 # the connection that hit the failure was dropped: its elements went with it
+            else:
+                allowed = {"done": [after], "refused": [before], "nothing": [before, after]}[said]
+            if not any((a is None and have is None) or (a is not None and have is not None and jeq(a, have)) for a in allowed):
+                S.v("state/element-differs-from-answer:%s-%s" % (op, said), "%s: read back %s, allowed %s (allocation %r failing x%d)" %
+                    (path, _json(have)[:120], " or ".join(_json(a)[:60] for a in allowed), nth, count))
+        if op == "change":
+            expect("s/a", old, new)
+        elif op == "add":
+            expect("s/new", None, new)
+            expect("s/a", old, old)
+        else:
+            expect("s/a", old, None)
+        if not owner_gone and "s/m" not in listed and False:
+            pass
+        # the element keeps its kind: the owner can still change the state afterwards
+        if not owner_gone and listed.get("s/a") is not None:
+            c2 = S.request(o, "change", {"path": "s/a", "value": 7})
+            c2.expect_override = "any"
+            S.settle()
+            a2 = [m for m in o.msglog if isinstance(m, dict) and m.get("id") == c2.idv]
+            if not a2 or "result" not in a2[0]:
+                S.v("after-fault:state/state-cannot-be-changed-any-more", _json(a2[:1])[:200])
+        S.end(r, "eof")
+        S.end(o, "eof")
+        S.end(obs, "eof")
+        S.settle()
+        probe(S, "")
+        st = S.close_all()
+        S.check_idle_baseline(st)
+        S.shutdown()
+        return [op, t, "alloc", nth, said, sorted(listed)]
+    sim_case(case, res, body)
+
+
+def _json(x):
+    return json.dumps(x, sort_keys=True)
